@@ -493,7 +493,7 @@ class OraclesMixin:
                     continue
                 tail = "/".join(m.verbs[-3:])
                 if "O8" in self.fam and rep == "sqlite":
-                    self.violate("C08", "O8.5", f"accepted pipeline fails at {which} on sqlite with {cls}: {str(res[2])[:160]}", cls=cls, op=op, which=which, tail=tail)
+                    self.violate("C08", "O8.5", f"accepted pipeline fails at {which} on sqlite with {cls}: {str(res[2])[:160]}", cls=cls, op=op, which=which, cause=self.c08_cause(m, op), tail=tail)
                 if which == "probe" and self.fam & {"O9", "O6", "O16"}:
                     self.violate(prop, "O9.1", f"using an in-scope reference after `{op}` raised {cls} on {rep}: {str(res[2])[:160]}", cls=cls, op=op, rep=rep)
                 if which == "export":
